@@ -286,11 +286,34 @@ Definition UINT_MAX : N := 4294967295.
 Definition fake_sym (a : N) : sym :=
   {| s_addr := a; s_size := UINT_MAX; s_type := 0; s_name := 60 :: hex a ++ [62] |}.
 
-Definition patch_patchable_func_matched (O : oracle) (c : cfg) (syms : list sym) (targets : list N)
-           (st : mem * stats) : mem * stats :=
+(* which symbol a location of __patchable_function_entries stands for.  The symbol containing it; else
+   (after "fix: dynamic: a patchable location in front of a function ...") the symbol that begins 1..4
+   bytes behind it (-fpatchable-function-entry=N,M records the location M bytes before the entry);
+   None = no symbol: a fake one named after the address.
+   [resolve_target_legacy]: the code as found went straight to the fake symbol. *)
+Definition sym_starting_at (syms : list sym) (a : N) : option sym :=
+  match find_sym syms a with
+  | Some s => if s_addr s =? a then Some s else None
+  | None => None
+  end.
+Fixpoint first_some {A} (l : list (option A)) : option A :=
+  match l with
+  | [] => None
+  | Some x :: _ => Some x
+  | None :: r => first_some r
+  end.
+Definition resolve_target_legacy (syms : list sym) (a : N) : option sym := find_sym syms a.
+Definition resolve_target (syms : list sym) (a : N) : option sym :=
+  match find_sym syms a with
+  | Some s => Some s
+  | None => first_some (map (fun k => sym_starting_at syms (a + k)) [1; 2; 3; 4])
+  end.
+
+Definition patchable_loop (resolve : list sym -> N -> option sym) (O : oracle) (c : cfg) (syms : list sym)
+           (targets : list N) (st : mem * stats) : mem * stats :=
   let step (acc : mem * stats * bool) (a : N) :=
     let '(st, found) := acc in
-    match find_sym syms a with
+    match resolve syms a with
     | None => (visit O c st (fake_sym a), true)
     | Some s => if skip_sym s then acc else (visit O c st s, true)
     end in
@@ -298,6 +321,8 @@ Definition patch_patchable_func_matched (O : oracle) (c : cfg) (syms : list sym)
   (m, if found then k
       else {| st_total := st_total k; st_failed := st_failed k; st_skipped := st_skipped k;
               st_nomatch := st_nomatch k + 1 |}).
+Definition patch_patchable_func_matched := patchable_loop resolve_target.
+Definition patch_patchable_func_matched_legacy := patchable_loop resolve_target_legacy.
 
 Definition patch_func_matched (O : oracle) (c : cfg) (syms : list sym) (targets : list N)
            (st : mem * stats) : mem * stats :=
@@ -456,7 +481,7 @@ Definition call_target (insn : N) (code : bytes) : option Z :=
    section) the symbol each listed address falls into / a fake one for a symbol-less address *)
 Definition visited (c : cfg) (syms : list sym) (targets : list N) : list sym :=
   match c_ty c with
-  | DPatchable => flat_map (fun a => match find_sym syms a with
+  | DPatchable => flat_map (fun a => match resolve_target syms a with
                                      | Some s => if skip_sym s then [] else [s]
                                      | None => [fake_sym a]
                                      end) targets
